@@ -8,30 +8,30 @@ package rules
 
 import (
 	"fmt"
-	"sync"
 	"go/ast"
 	"go/token"
 	"go/types"
 	"sort"
 	"strings"
+	"sync"
 
 	"verif/sa/internal/core"
 )
 
 // effWrite is one write, expressed relative to a root.
 type effWrite struct {
-	root    string // "param", "pkgvar", "unknown"
-	param   int    // parameter index (-1 receiver) for root=="param"
-	rootObj types.Object
-	steps   []core.Step // steps below the root, the last one is what is stored to
-	how     string      // assign, delete, incdec, ext:<callee>
-	pos     token.Pos
-	fn      *core.FuncInfo // function containing the syntactic write
-	via     []string       // call chain from the summarised function down to fn
-	note    string
-	valueOf string // rendered RHS, for stores
-	lhs     string // rendered LHS at the original site
-	unknownRel bool // exact location below the root unknown (derived through a call)
+	root       string // "param", "pkgvar", "unknown"
+	param      int    // parameter index (-1 receiver) for root=="param"
+	rootObj    types.Object
+	steps      []core.Step // steps below the root, the last one is what is stored to
+	how        string      // assign, delete, incdec, ext:<callee>
+	pos        token.Pos
+	fn         *core.FuncInfo // function containing the syntactic write
+	via        []string       // call chain from the summarised function down to fn
+	note       string
+	valueOf    string // rendered RHS, for stores
+	lhs        string // rendered LHS at the original site
+	unknownRel bool   // exact location below the root unknown (derived through a call)
 }
 
 func (w effWrite) relString() string {
@@ -72,11 +72,11 @@ type litWrite struct {
 }
 
 type effSummary struct {
-	litWrites   map[string]litWrite // writes rooted at a parameter of a function literal of this function
-	writes      map[string]effWrite
+	litWrites    map[string]litWrite // writes rooted at a parameter of a function literal of this function
+	writes       map[string]effWrite
 	returnsFresh bool
-	conc        []string // go statements, channel operations, sync/atomic use
-	extCalls    map[string]extCall
+	conc         []string // go statements, channel operations, sync/atomic use
+	extCalls     map[string]extCall
 }
 
 type extCall struct {
@@ -98,20 +98,20 @@ type effEngine struct {
 // externalEffects: external callees that write through an argument
 // (-1 = receiver). Confirmed by reading the vendored sources.
 var externalEffects = map[string]int{
-	"github.com/go-openapi/spec.ExpandSpec":                          0,
-	"github.com/go-openapi/spec.ExpandSchema":                        0,
-	"github.com/go-openapi/spec.ExpandSchemaWithBasePath":            0,
-	"github.com/go-openapi/swag.FromDynamicJSON":                     1,
-	"(*github.com/go-openapi/spec.VendorExtensible).AddExtension":    -1,
-	"(*github.com/go-openapi/spec.Schema).UnmarshalJSON":             -1,
-	"(github.com/go-openapi/spec.Extensions).Add":                    -1,
-	"sort.Strings":                                                   0,
-	"sort.Sort":                                                      0,
-	"sort.Stable":                                                    0,
-	"sort.Slice":                                                     0,
-	"sort.SliceStable":                                               0,
-	"sort.Ints":                                                      0,
-	"encoding/json.Unmarshal":                                        1,
+	"github.com/go-openapi/spec.ExpandSpec":                       0,
+	"github.com/go-openapi/spec.ExpandSchema":                     0,
+	"github.com/go-openapi/spec.ExpandSchemaWithBasePath":         0,
+	"github.com/go-openapi/swag.FromDynamicJSON":                  1,
+	"(*github.com/go-openapi/spec.VendorExtensible).AddExtension": -1,
+	"(*github.com/go-openapi/spec.Schema).UnmarshalJSON":          -1,
+	"(github.com/go-openapi/spec.Extensions).Add":                 -1,
+	"sort.Strings":            0,
+	"sort.Sort":               0,
+	"sort.Stable":             0,
+	"sort.Slice":              0,
+	"sort.SliceStable":        0,
+	"sort.Ints":               0,
+	"encoding/json.Unmarshal": 1,
 }
 
 // externalReadOnly: external callees known not to write through their arguments.
